@@ -1574,8 +1574,13 @@ def bicgstab(ex, A, b, x0=None, rtol=None, atol=None, **kw):
     return (ArrV((A.n,), xf, "f8"), info)
 
 
-def np_gradient(ex, y, x):
-    y, x = as_array(ex, y), as_array(ex, x)
+def np_gradient(ex, y, x=None):
+    y = as_array(ex, y)
+    if x is None:
+        used(ex, "np.gradient(y): differences with unit spacing (no coordinate array)")
+        ex.ghost.setdefault("gradient", {})[f"gradient{y.id}"] = (y, None)
+        return ArrV(y.shape, lambda idx: tm.app("np.gradient", (tm.app(f"arrid{y.id}", ()), tm.app("unit_spacing", ()), idx[0])), "f8")
+    x = as_array(ex, x)
     used(ex, "np.gradient(y, x): second-order differences with respect to the coordinate array x")
     name = f"gradient{y.id}"
     ex.ghost.setdefault("gradient", {})[name] = (y, x)
